@@ -18,6 +18,21 @@ CHECKS = {
    note=TB + "F12 (leading wildcard digits are not expanded by wildcard_bin_array) is a recorded known finding; it is only accepted when implementation and model agree and the missing values are exactly those above the highest care bit.",
    technique="Lean 4 proof over executable model + exhaustive differential correspondence",
    design="6 C19"),
+ "C11": dict(
+   text="Lean theorems over the executable cross model: cross bins are in one-to-one row-major correspondence with the combinations of coverpoint bins (flatIdx_lt, keyOf_flatIdx: keyOf is the inverse of flatIdx on valid keys, and names are built from keyOf); the key of a sample exists exactly when every crossed coverpoint's iff holds and every one hit a bin (crossKey_spec); one sample changes at most one cross bin, by exactly one, and only if the cross's iff holds (cross_step_spec); after any sample sequence each cross bin holds the number of samples with cross iff, all coverpoint iffs and that combination of bins (cross_counts, induction over samples). Tied to CoverpointCrossModel/CovergroupModel by generated covergroup scenarios compared state-by-state with the model, and to the property text by a per-sample oracle on the implementation's cross increments.",
+   note=TB + "Where a sampled value lies in several bins of one crossed coverpoint the Spec accepts any of them (the property defines the hit bin only for disjoint bins); zero-bin coverpoints are excluded (F20).",
+   technique="Lean 4 proof over executable model + differential correspondence on generated covergroup scenarios",
+   design="6 C11"),
+ "C12": dict(
+   text="Lean theorems: for any interleaving of samples over n instances of one shape the type covergroup's coverpoint and cross bins equal the bin-wise sum of the instances' bins and each instance holds only its own samples (type_is_sum, type_is_sum_cross, from the additivity of sampling); the number of covered bins is at most the number of bins, monotone in the hit vector, and equal to it iff every bin reached at_least (cov_range, cov_mono, cov_full_iff); the weight-averaged covergroup coverage over exact rationals lies in 0..100, never decreases, and is 100 iff every bin of every positively weighted item is covered (wavg_range, wavg_mono, wavg_full_iff). Registry behaviour (structural equality, variant naming, forwarding of cached values) is tied by generated multi-instance scenarios compared state-by-state with the model and checked against the property text (instance isolation, type = sum, different bins => different type, coverage values, range, monotonicity, 100-iff-covered).",
+   note=TB + "Covergroup percentages are compared with the exact rational up to the library's round(.,4); IEEE division assumed correctly rounded. F20 (zero-bin coverpoint has no coverage value) is a recorded known finding. The registry-level statement 'instances with different bins form separate types' rests on the correspondence of Cg.shapeEq with the equals() methods, not on a theorem.",
+   technique="Lean 4 proof over executable model + differential correspondence on generated covergroup scenarios",
+   design="6 C12"),
+ "C13": dict(
+   text="Lean theorems over the save visitor as a pure function of the registry: every coverpoint is emitted once, in order, under its in-memory name; exactly n_bins bins are emitted per bin list, each with the in-memory name and hit count of its flat index; every cross is emitted with one bin per cross bin carrying its in-memory count (binsOf_spec, saveCg_cps, saveCg_cross_counts); save is a function (save_pure). Tied to CoverageSaveVisitor by comparing the report model tree with the model's tree at random points of generated histories; the implementation is checked against the property text: report model, text rendering and XML read-back contain every type/instance/coverpoint/cross/bin with the in-memory names and counts, percentages equal get_coverage()/get_inst_coverage(), and coverage state is identical before and after.",
+   note=TB + "PARTIAL by nature: text formatting, XML writing and parsing are PyUCIS code, covered only by the differential check (XML read-back compared on names and counts because PyUCIS does not round-trip at_least; cross weights fixed to 1 because PyUCIS reports crosses with weight 1).",
+   technique="Lean 4 proof over executable model + differential correspondence incl. PyUCIS report/XML round trip",
+   design="6 C13"),
  "C18": dict(
    text="Lean theorems for all widths w>=1, both signs and all integers: every scalar write path followed by every scalar read path, and every list write path followed by every list read path, yields Spec.wrap w s v, which lies in the declared type (scalar_read_after_write, list_read_after_write, paths_agree, wrap_inType, wrap_of_inType, readBack_spec); part-select read returns bits[hi:lo], part-select/bit write sets exactly those bits and changes no bit below lo or above hi (partWrite_spec, bitWrite_spec, partWrite_inType); enum value<->enumerator round trip (enum_roundtrip). The model functions are compared with types.py / enum_info.py on every run: exhaustively for small widths over [-2^(w+1),2^(w+1)] x all write x read paths, boundary values up to width 64, all part-select bounds for widths <= 8.",
    note=TB + "Python's unbounded-int &, ~, <<, >> are modelled arithmetically (mod/div by powers of two); that identity is what the exhaustive sweep validates. Part-select writes wider than the field are outside the judged domain.",
